@@ -341,7 +341,7 @@ func (p *printer) nodes(ns []Node, depth int) {
 		// write a tab, the class (horizontal) is what the abstract program fixes.
 		if i+1 < len(ns) && (n.K == "slot" || n.K == "hcomment" || n.K == "mcomment" || n.K == "raw" || n.K == "call" || n.K == "callb") && n.After == "h" {
 			switch ns[i+1].K {
-			case "slot", "expr", "gocode":
+			case "slot", "expr", "gocode", "gocodei":
 				if p.v != 2 {
 					p.sb.WriteString("\t")
 				}
@@ -487,6 +487,15 @@ func (p *printer) node(n Node, depth int) {
 			p.sb.WriteString("{{ env.G() }}")
 		}
 		p.ws("v", depth)
+	case "gocodei":
+		if p.v == 3 && p.odd&OddGoCodeTwo != 0 {
+			p.sb.WriteString("{{ env.G(); _ = 0 }}")
+		} else if p.v == 1 {
+			p.sb.WriteString("{{env.G()}}")
+		} else {
+			p.sb.WriteString("{{ env.G() }}")
+		}
+		p.ws(n.Tr, depth)
 	case "hcomment":
 		if p.v == 1 {
 			p.sb.WriteString("<!--c-->") // comment text is rendered verbatim, padding included
